@@ -89,6 +89,37 @@ void h_lu_pivot_rule(void)
     CHECK(checked >= 100, "infra: the enumeration contains enough non-tie cases");
 }
 
+
+/*
+ * 3x3: the pivot SEQUENCE (row_index) must not depend on multiplying one row
+ * by a power of two, for a matrix in which the scaled row is displaced by the
+ * first swap (so its scale factor has to travel with it).
+ */
+void h_lu_row_scaling3(void)
+{
+    IN(int, which);
+    IN(int, e);
+    static const double base[9] = { 1.0, 2.0, 50.0,   3.0, 1.0, 2.0,   2.0, 3.0, 1.0 };
+    double complex a[9], b[9];
+    int ra[3], rb[3];
+    double sc;
+
+    ASSUME(which >= 0 && which <= 2 && e >= -3 && e <= 3);
+    sc = pow2_10(e);
+    for (int i = 0; i < 9; ++i) {
+	a[i] = base[i];
+	b[i] = (i / 3 == which) ? base[i] * sc : base[i];
+    }
+    (void)_vnacommon_lu(a, ra, 3);
+    (void)_vnacommon_lu(b, rb, 3);
+    REACH("lu returned (3x3)");
+    CHECK(ra[0] != ra[1] && ra[0] != ra[2] && ra[1] != ra[2] &&
+	    ra[0] >= 0 && ra[0] < 3 && ra[1] >= 0 && ra[1] < 3 && ra[2] >= 0 && ra[2] < 3,
+	    "row_index is a permutation");
+    CHECK(ra[0] == rb[0] && ra[1] == rb[1] && ra[2] == rb[2],
+	    "scaling one row by a power of two does not change the pivot sequence (3x3)");
+}
+
 /* zero pivot: determinant stands out */
 void h_lu_zero_pivot(void)
 {
